@@ -1,6 +1,7 @@
 package main
 
 import (
+	"fmt"
 	"go/token"
 	"sort"
 	"strings"
@@ -255,4 +256,57 @@ func describeParts(cx *Ctx, ps []strPart) string {
 		}
 	}
 	return strings.Join(s, " + ")
+}
+
+// strAlt is one of the values a string-valued expression can take, with the atoms that hold where it is chosen.
+type strAlt struct {
+	Val   ssa.Value
+	Atoms []Atom
+	Tag   string
+}
+
+// strAlts expands a value chosen among several - a phi (a local assigned in the arms of a test) or a cell with
+// several stores - into its alternatives. The atoms of an alternative are those holding on the edge that selects it
+// (phi) or at the store (cell); a plain value has the atoms holding at `at`.
+func (cx *Ctx) strAlts(v ssa.Value, at ssa.Instruction) []strAlt {
+	fx := cx.Fx
+	var out []strAlt
+	seen := map[ssa.Value]bool{}
+	var walk func(v ssa.Value, atoms []Atom, tag string, depth int)
+	walk = func(v ssa.Value, atoms []Atom, tag string, depth int) {
+		if depth > 6 || seen[v] {
+			out = append(out, strAlt{v, atoms, tag})
+			return
+		}
+		switch x := v.(type) {
+		case *ssa.Phi:
+			seen[v] = true
+			for i, e := range x.Edges {
+				pred := x.Block().Preds[i]
+				walk(e, append(append([]Atom{}, atoms...), fx.AtomsOnEdge(pred, x.Block())...), fmt.Sprintf("%s/%d", tag, i), depth+1)
+			}
+			return
+		case *ssa.UnOp:
+			if x.Op == token.MUL {
+				if cell, ok := x.X.(*ssa.Alloc); ok {
+					var sts []*ssa.Store
+					for _, ref := range nonDebugRefs(cell) {
+						if st, ok := ref.(*ssa.Store); ok && st.Addr == cell {
+							sts = append(sts, st)
+						}
+					}
+					if len(sts) > 1 {
+						seen[v] = true
+						for i, st := range sts {
+							walk(st.Val, append(append([]Atom{}, atoms...), fx.AtomsAt(st)...), fmt.Sprintf("%s/s%d", tag, i), depth+1)
+						}
+						return
+					}
+				}
+			}
+		}
+		out = append(out, strAlt{v, atoms, tag})
+	}
+	walk(v, fx.AtomsAt(at), "", 0)
+	return out
 }
